@@ -1,6 +1,6 @@
 (* C03 — authorization codes are single-use, client-bound, redirect-bound and short-lived.
    Statements only; proofs in Proofs/OneShot.v, Proofs/HistProps.v, Proofs/FreshHandlers.v. *)
-From Verif Require Import Base Scope Types Prog Pop Token Authorize System Config Run Monitors Fresh FreshHandlers OneShot HistProps.
+From Verif Require Import Base Scope Types Prog Pop Token Authorize System Config Run Monitors Fresh FreshHandlers OneShot HistProps Replay.
 Local Open Scope N_scope.
 
 (* Over every history (any configuration, clients, interleaving of operations, clock advances): no
@@ -58,6 +58,36 @@ Proof.
   destruct (fresh_all_histories w dyn ops) as [[_ U] _]. exact (U s1 s2 FCode H1 H2 E NZ).
 Qed.
 Print Assumptions code_index_unique.
+
+(* "Every later presentation of the same code fails, and invalidates the tokens that were obtained from
+   it": in every reachable state of every history, an authenticated token request whose code indexes no
+   session (it was redeemed, or never issued) is answered invalid_grant, leaves the sessions alone, and
+   afterwards NO stored grant carries that code - the access and refresh tokens obtained from it are
+   found only through their grant (C05 live_access_iff, C10 refresh_bound), so they are dead. *)
+Theorem replay_kills_issue : forall w dyn (ops : list op) n now r c,
+  let st := s_store (fst (run_from w (init_state dyn) 0 ops)) in
+  has_grant GAuthorizationCode (cf_grants (w_cfg w)) = true -> is_nil (t_code r) = false ->
+  snd (run_seq (authenticated w (t_cred r)) st) = Some c ->
+  find (fun s => ideq (a_code s) (t_code r)) (st_asess st) = None ->
+  snd (run_seq (code_grant w n now r) st) = OErr EInvalidGrant /\
+  st_asess (fst (run_seq (code_grant w n now r) st)) = st_asess st /\
+  (forall g, In g (st_gsess (fst (run_seq (code_grant w n now r) st))) -> In g (st_gsess st) /\ g_code g <> t_code r).
+Proof.
+  intros w dyn ops n now r c st HG NN EA EF.
+  apply (code_replay_revokes w n now r st c HG NN EA EF). exact (ci_uniq _ _ (cinv_all_histories w dyn ops)).
+Qed.
+Print Assumptions replay_kills_issue.
+
+(* in every reachable state a code is carried by at most one grant, and by no grant while a session
+   still holds it (so the grant found by a replay is THE grant obtained from the code) *)
+Theorem code_carried_by_one_grant : forall w dyn (ops : list op),
+  let st := s_store (fst (run_from w (init_state dyn) 0 ops)) in
+  (forall g1 g2, In g1 (st_gsess st) -> In g2 (st_gsess st) -> g_code g1 = g_code g2 -> g_code g1 <> 0 -> g_id g1 = g_id g2) /\
+  (forall s g, In s (st_asess st) -> In g (st_gsess st) -> a_code s <> 0 -> g_code g <> a_code s).
+Proof.
+  intros w dyn ops st. destruct (cinv_all_histories w dyn ops) as [_ U S]. split; [exact U|exact S].
+Qed.
+Print Assumptions code_carried_by_one_grant.
 
 (* non-vacuity: a history in which a code is minted, redeemed once, and refused the second time *)
 Example code_flow_exists :
